@@ -13,10 +13,12 @@
 
 using wl::Cell;
 
-enum { OP_DETACH = 0, OP_ASYNC_RET, OP_ASYNC_VOID, OP_ASYNC_THROW, OP_READ, OP_LOAD, OP_DETACH_THROW, OP_ASYNC_VOID_THROW, OP_DETACH_LVALUE };
+enum { OP_DETACH = 0, OP_ASYNC_RET, OP_ASYNC_VOID, OP_ASYNC_THROW, OP_READ, OP_LOAD, OP_DETACH_THROW, OP_ASYNC_VOID_THROW, OP_DETACH_LVALUE,
+       OP_DETACH_WAITS, OP_HELPER };
 static const char* const OPN[] = {"modify_detach", "modify_async_ret", "modify_async_void",
                                   "modify_async_throw", "read", "load", "modify_detach_throw",
-                                  "modify_async_void_throw", "modify_detach_lvalue"};
+                                  "modify_async_void_throw", "modify_detach_lvalue", "modify_detach_waits",
+                                  "helper_submit"};
 
 namespace {
 struct Sub {
@@ -98,6 +100,21 @@ struct LvalueFn {
         int n = ++*state;
         c.rmw_add(1, 0);
         on_exec(n == 1 ? id_first : id_second);
+    }
+};
+/// a modification that, while it runs, waits for ANOTHER thread's submission to the same
+/// object to return (hand-over to a helper).  A submission never waits for running
+/// modifications (it is applied directly or queued), so this cannot deadlock.
+struct FnWaits {
+    int id;
+    int k;
+    void operator()(Cell& c) const
+    {
+        c.rmw_add(1, 0);
+        on_exec(id);
+        gsim::ev_set(20 + k);
+        gsim::ev_wait(30 + k);
+        gsim::probe("deferred.modification_waited_for_a_submitter");
     }
 };
 struct FnVoidThrow {
@@ -184,6 +201,33 @@ struct WL {
                 S->futs_void.emplace_back(id, std::move(f));
                 break;
             }
+            case OP_DETACH_WAITS: {
+                begin_submit(id, op.code);
+                dg->modify_detach(FnWaits{id, op.a % 3});
+                end_submit(id);
+                // make sure it gets applied while the helper is still around
+                for (;;) {
+                    bool done;
+                    {
+                        gsim::Oracle o;
+                        done = sub(id).execs > 0;
+                    }
+                    if (done) break;
+                    {
+                        auto h = cdg.lock_shared();
+                        (void)h->read();
+                    }
+                    gsim::yield();
+                }
+                break;
+            }
+            case OP_HELPER:
+                gsim::ev_wait(20 + op.a % 3);
+                begin_submit(id, OP_DETACH);
+                dg->modify_detach(Fn{id, 0});
+                end_submit(id);
+                gsim::ev_set(30 + op.a % 3);
+                break;
             case OP_DETACH_LVALUE: {
                 int id2 = id + 50;
                 LvalueFn lf{std::make_shared<int>(0), id, id2};
@@ -311,6 +355,31 @@ struct WL {
                     }
                 }
             }
+            if (gsim::gen_int(4) == 0 && n < 5) {
+                // a hand-over pair: a waiting modification appended to some thread, its helper
+                // as the only op of an extra thread
+                gsim::prog_add(gsim::gen_int(n), {OP_DETACH_WAITS, 0, 0, 0});
+                gsim::prog_add(n, {OP_HELPER, 0, 0, 0});
+            }
+        }
+        // validate the hand-over pairs (the minimiser may have removed one half)
+        {
+            int w[3] = {0, 0, 0}, hlp[3] = {0, 0, 0}, wt[3] = {-1, -1, -1}, ht[3] = {-2, -2, -2};
+            for (int t = 0; t < gsim::prog_nthreads(); t++)
+                for (int i = 0; i < gsim::prog_len(t); i++) {
+                    gsim::Op op = gsim::prog_op(t, i);
+                    if (op.code == OP_DETACH_WAITS) w[op.a % 3]++, wt[op.a % 3] = t;
+                    if (op.code == OP_HELPER) hlp[op.a % 3]++, ht[op.a % 3] = t;
+                }
+            for (int k = 0; k < 3; k++)
+                if (w[k] != hlp[k] || w[k] > 1 || (w[k] == 1 && wt[k] == ht[k]))
+                    gsim::fail("harness", "unbalanced hand-over pair %d", k);
+            // a helper must not sit behind another pair's waiting op in a cycle: keep it simple —
+            // helpers are the first op of their thread
+            for (int t = 0; t < gsim::prog_nthreads(); t++)
+                for (int i = 1; i < gsim::prog_len(t); i++)
+                    if (gsim::prog_op(t, i).code == OP_HELPER)
+                        gsim::fail("harness", "a helper op must be the first op of its thread");
         }
         gsim::enable_fault(gsim::F_SPURIOUS_TRYLOCK, gsim::knob("spurious_try", 0, 2) * 150);
         gsim::enable_fault(gsim::F_TIME_JUMP, gsim::knob("time_jump", 0, 1) * 20);
